@@ -20,6 +20,7 @@ RULE = ("lattice: grid x (radius | explicit odd kernel from a named table) x bou
         "radius>1 and more than one element); distinct by (family, grid, element size, kernel/radius, units, mode tuple "
         "with the modes of axes whose pad is 0 blanked, override); mode tuples the statement does not define are "
         "tallied under observed_only as 'inadmissible: ...' and never judged")
+RULE += " Extended in seeding rounds 6-7:  relative_units as int / numpy bool; kernel array re-used by the caller; outputs of earlier calls held by reference."
 ASSUMPTIONS = [
     "boundary semantics = separable per-axis index map (symmetric = reflect including the edge element, edge = clamp, "
     "wrap = periodic, number = constant); different constants are only placed on the same axis, so no corner where two "
